@@ -279,7 +279,7 @@ KIND_OF_CTOR = {'ExprInt': 'Int', 'ExprId': 'Id', 'ExprMem': 'Mem', 'ExprOp': 'O
 
 
 class Interp(object):
-    def __init__(self, mod, afs_obj, arch_env, expr_names):
+    def __init__(self, mod, afs_obj, arch_env, expr_names, seeds=None):
         """mod: srcmodel Module of ia32_sem; afs_obj: consteval Obj for x86_afs; arch_env: names imported from ia32_arch;
         expr_names: names ia32_sem imports from expression (so that a missing import is an unbound name)."""
         self.mod = mod
@@ -296,7 +296,9 @@ class Interp(object):
             pass
         self.afs_obj = afs_obj
         self.arch_env = arch_env
+        self.seeds = seeds or {}
         self._load_module()
+        self.g.update(self.seeds)
 
     # --- module level
     def _load_module(self):
@@ -982,12 +984,19 @@ class Frame(object):
             if isinstance(v, (Sym, ModVal)):
                 return Sym('int') if (isinstance(v, Sym) or v.val is None) else v.val
             return int(v)
-        if name in ('builtin.list', 'builtin.tuple', 'builtin.sorted'):
+        if name == 'builtin.sorted':
+            try:
+                return sorted(args[0])
+            except TypeError:
+                raise LiftUnknown('sorted of unorderable values')
+        if name in ('builtin.list', 'builtin.tuple'):
             return list(args[0]) if args else []
         if name == 'builtin.dict':
             return dict(*args, **kwargs)
         if name == 'builtin.type':
             v = args[0]
+            if isinstance(v, ModVal):
+                return Ctor('uint%d' % v.size)
             if isinstance(v, bool):
                 return Ctor('builtin.bool')
             if isinstance(v, int):
@@ -1063,6 +1072,8 @@ class InfoObj(object):
 
 
 def hkey(k):
+    if isinstance(k, Ctor):
+        return ('ctor', k.name)
     if isinstance(k, Term):
         return ('term', k.key())
     if isinstance(k, ModVal):
